@@ -699,7 +699,7 @@ func (l *loopState) resolveExpressions(inputData any, dataModel any) (any, error
 	switch expr := inputData.(type) {
 	case expressions.Expression:
 		l.logger.Debugf("Evaluating expression %s...", expr.String())
-		return expr.Evaluate(dataModel, l.callableFunctions, l.workflowContext)
+		return l.evaluateExpression(expr, dataModel)
 	case *infer.OneOfExpression:
 		return l.resolveOneOfExpression(expr, dataModel)
 	case *infer.OptionalExpression:
@@ -816,7 +816,20 @@ func (l *loopState) resolveOptionalExpression(expr *infer.OptionalExpression, da
 	if !dependencyGroupResolved {
 		return nil, nil // It's nil to indicate that the optional field is not present.
 	}
-	return expr.Expr.Evaluate(dataModel, l.callableFunctions, l.workflowContext)
+	return l.evaluateExpression(expr.Expr, dataModel)
+}
+
+// evaluateExpression evaluates one expression over the data model. A panic raised during the evaluation
+// (for example an integer division by zero) is reported as an error of that expression instead of
+// crashing the process.
+func (l *loopState) evaluateExpression(expr expressions.Expression, dataModel any) (result any, err error) {
+	defer func() {
+		if r := recover(); r != nil {
+			result = nil
+			err = fmt.Errorf("panic while evaluating expression %s (%v)", expr.String(), r)
+		}
+	}()
+	return expr.Evaluate(dataModel, l.callableFunctions, l.workflowContext)
 }
 
 // stageChangeHandler is implementing step.StageChangeHandler.
